@@ -296,8 +296,8 @@ func (e *Explorer) explore(devs DevList, depth int, owned bool) {
 			check = false // ancestor of the resume point: run for its trace only
 		}
 	}
-	if check && e.Before != nil {
-		e.Before(devs)
+	if e.Before != nil {
+		e.Before(devs) // also for executions this worker does not own: a crash there must be attributable
 	}
 	atomic.AddUint64(&ProgressTicks, 1)
 	x := Run(e.H, devs, false)
